@@ -122,9 +122,165 @@ def gen_specidx():
     return 'SpecIdx.lean', text, echo
 
 
-GENERATORS = [gen_specidx]
+# ----------------------------------------------------------------------------------------------------------------
+# Write-sets and parameter aliases of the estimators (session 3): which local names are modified IN PLACE
+# (aug-assignment, subscript / attribute store, mutating method, out=, np.copyto …) and which names may hold a VIEW of
+# a parameter (plain assignment, reshape, slicing, .T/.real, np.asarray, np.rollaxis …; flow-insensitive fixpoint).
+# `Props/C04.lean: estimators_do_not_write_parameters` is `decide` over these tables; the history theorems of the
+# precomputed-transform branch (`skRun_eq_map`: csd(Sk); csd(Sk) give equal results) use
+# `writesAlias "periodogram_csd" "Sk" = false`, so a source edit that scales `Sk_loc` in place re-opens them.
+VIEW_METHODS = {'reshape', 'view', 'squeeze', 'ravel', 'transpose', 'swapaxes', 'diagonal', '__array__'}
+VIEW_ATTRS = {'T', 'real', 'imag', 'flat', 'data'}
+VIEW_FUNCS = {'asarray', 'asanyarray', 'atleast_1d', 'atleast_2d', 'atleast_3d', 'ravel', 'reshape', 'squeeze', 'transpose',
+              'rollaxis', 'moveaxis', 'swapaxes', 'real', 'imag', 'ascontiguousarray', 'asfortranarray', 'broadcast_to',
+              'expand_dims', 'require'}
+MUTATORS = {'fill', 'sort', 'resize', 'put', 'itemset', 'setfield', 'partition', 'byteswap', 'pop', 'update', 'setdefault',
+            'clear', 'append', 'extend', 'insert', 'remove', 'popitem', 'reverse'}
+MUT_FUNCS = {'copyto', 'put', 'place', 'putmask', 'fill_diagonal', 'put_along_axis'}
+WRITE_FUNCS = [('nitime/algorithms/spectral.py', f) for f in
+               ('periodogram', 'periodogram_csd', 'mtm_cross_spectrum', 'multi_taper_psd', 'multi_taper_csd', 'get_spectra',
+                'get_spectra_bi')] + [('nitime/utils.py', 'tapered_spectra')]
+
+
+def base_name(node):
+    """x, x[...], x.attr, x[...][...] -> 'x' ('self.attr' for attributes of self)"""
+    while isinstance(node, (ast.Subscript, ast.Attribute, ast.Starred)):
+        if isinstance(node, ast.Attribute) and isinstance(node.value, ast.Name) and node.value.id == 'self':
+            return 'self.' + node.attr
+        node = node.value
+    return node.id if isinstance(node, ast.Name) else None
+
+
+def may_alias(e, al):
+    """names of `al` (name -> set of parameters it may view) that the value of expression `e` may be a view of"""
+    if isinstance(e, ast.Name):
+        return set(al.get(e.id, ()))
+    if isinstance(e, ast.Attribute):
+        return may_alias(e.value, al) if e.attr in VIEW_ATTRS else set()
+    if isinstance(e, (ast.Subscript, ast.Starred)):
+        return may_alias(e.value, al)
+    if isinstance(e, ast.IfExp):
+        return may_alias(e.body, al) | may_alias(e.orelse, al)
+    if isinstance(e, ast.BoolOp):
+        return set().union(*[may_alias(v, al) for v in e.values])
+    if isinstance(e, ast.Call):
+        f = e.func
+        if isinstance(f, ast.Attribute) and f.attr in VIEW_METHODS:
+            return may_alias(f.value, al)
+        name = f.attr if isinstance(f, ast.Attribute) else (f.id if isinstance(f, ast.Name) else None)
+        if name in VIEW_FUNCS and e.args:
+            return may_alias(e.args[0], al)
+    return set()
+
+
+def write_sets(fn):
+    params = [a.arg for a in fn.args.args + fn.args.kwonlyargs if a.arg != 'self']
+    al = {p: {p} for p in params}
+    changed = True
+    while changed:
+        changed = False
+
+        def bind(t, v):
+            nonlocal changed
+            if isinstance(t, ast.Name):
+                new = may_alias(v, al) if v is not None else set()
+                if not new <= al.get(t.id, set()):
+                    al.setdefault(t.id, set()).update(new)
+                    changed = True
+            elif isinstance(t, (ast.Tuple, ast.List)):
+                if isinstance(v, (ast.Tuple, ast.List)) and len(v.elts) == len(t.elts):
+                    for a, b in zip(t.elts, v.elts):
+                        bind(a, b)
+        for node in ast.walk(fn):
+            if isinstance(node, ast.Assign):
+                for t in node.targets:
+                    bind(t, node.value)
+            elif isinstance(node, ast.For):
+                bind(node.target, node.iter)          # rows of a view are views
+            elif isinstance(node, ast.NamedExpr):
+                bind(node.target, node.value)
+    writes = set()
+
+    def store(t):
+        if isinstance(t, (ast.Tuple, ast.List)):
+            for x in t.elts:
+                store(x)
+        elif isinstance(t, (ast.Subscript, ast.Attribute)):
+            b = base_name(t)
+            if b:
+                writes.add(b)
+    for node in ast.walk(fn):
+        if isinstance(node, ast.AugAssign):
+            b = base_name(node.target)
+            if b:
+                writes.add(b)
+        elif isinstance(node, ast.Assign):
+            for t in node.targets:
+                store(t)
+        elif isinstance(node, ast.For):
+            store(node.target)
+        elif isinstance(node, ast.Call):
+            f = node.func
+            if isinstance(f, ast.Attribute) and f.attr in MUTATORS:
+                b = base_name(f.value)
+                if b:
+                    writes.add(b)
+            name = f.attr if isinstance(f, ast.Attribute) else (f.id if isinstance(f, ast.Name) else None)
+            if name in MUT_FUNCS and node.args:
+                b = base_name(node.args[0])
+                if b:
+                    writes.add(b)
+            for kw in node.keywords:
+                if kw.arg == 'out':
+                    b = base_name(kw.value)
+                    if b:
+                        writes.add(b)
+    # AugAssign on a plain local NUMBER (N += 1) is harmless but indistinguishable here: it is reported too, which only
+    # matters when that name may alias a parameter (then the obligation re-opens and a human looks)
+    views = {p: sorted(n for n, ps in al.items() if p in ps) for p in params}
+    return params, sorted(writes), views
+
+
+def lean_str_list(xs):
+    return '[' + ', '.join('"%s"' % x for x in xs) + ']'
+
+
+def gen_specwrites():
+    echo, w_lines, a_lines, p_lines = {}, [], [], []
+    for path, name in WRITE_FUNCS:
+        try:
+            fn = tr.find_func(tr.parse(path), name)
+            if fn is None:
+                raise Unsupported('function %s not found' % name)
+            params, writes, views = write_sets(fn)
+        except Exception as e:           # noqa
+            echo['writes_' + name] = {'unparsed': str(e)}
+            # unknown: every parameter counts as written (the theorem then fails: broken obligation)
+            params, writes, views = ['?'], ['?'], {'?': ['?']}
+        echo['writes_' + name] = {'writes': writes, 'views': {p: v for p, v in views.items() if v != [p]}}
+        w_lines.append('  | "%s" => %s' % (name, lean_str_list(writes)))
+        p_lines.append('  | "%s" => %s' % (name, lean_str_list(params)))
+        for p in params:
+            a_lines.append('  | "%s", "%s" => %s' % (name, p, lean_str_list(views[p])))
+    text = ('-- GENERATED by harness/translate_c04.py from nitime/algorithms/spectral.py, nitime/utils.py (in-place write sets and\n'
+            '-- parameter views of the spectral estimators). DO NOT EDIT.\n'
+            'namespace Nitime.Generated.SpecWrites\n\n'
+            '/-- the estimator entry points analysed -/\ndef functions : List String := %s\n\n'
+            '/-- parameters of each function -/\ndef params : String → List String\n%s\n  | _ => []\n\n'
+            '/-- local names modified in place (aug-assignment, subscript / attribute store, mutating method, out=) -/\n'
+            'def writes : String → List String\n%s\n  | _ => []\n\n'
+            '/-- local names that may hold the parameter or a view of it -/\n'
+            'def views : String → String → List String\n%s\n  | _, _ => []\n\n'
+            '/-- does the function modify, in place, a name that may be (a view of) the parameter? -/\n'
+            'def writesAlias (fn p : String) : Bool := (views fn p).any fun a => (writes fn).contains a\n\n'
+            'end Nitime.Generated.SpecWrites\n') % (lean_str_list([n for _, n in WRITE_FUNCS]), '\n'.join(p_lines), '\n'.join(w_lines), '\n'.join(a_lines))
+    return 'SpecWrites.lean', text, echo
+
+
+GENERATORS = [gen_specidx, gen_specwrites]
 
 if __name__ == '__main__':
-    n, t, e = gen_specidx()
-    print(t)
-    print(e)
+    for g in GENERATORS:
+        n, t, e = g()
+        print(t)
+        print(e)
